@@ -472,9 +472,17 @@ impl PublishBuilder {
 
         let rx =
             shared.wait_publish_response(idx, AckType::Receive, self.packet, Some(payload));
+        // releases the packet if this future is dropped after PUBREC has been received
+        let mut received = PublishReceived::new(
+            codec::PublishAck { packet_id: idx, ..Default::default() },
+            shared,
+        );
         async move {
             rx?.await
-                .map(move |ack| PublishReceived::new(ack.receive(), shared))
+                .map(move |ack| {
+                    received.ack = ack.receive();
+                    received
+                })
                 .map_err(|_| SendPacketError::Disconnected)
         }
     }
